@@ -16,7 +16,8 @@ def run(ctx, res):
         "saturating (never negative) and is measured on the first inner line only; R3 the backward line-break scan examines byte 0 before leaving on cursor == 0 (block on "
         "the first line of a file); R4 head/tail pair indices survive the splicing of child markers into the parent list "
         "(index-space rule: indices are produced relative to acc.len() and spliced children are rebased by a linear map that "
-        "is checked symbolically).  Not decided: that every line is shifted by the same amount; correctness at nesting depth "
+        "is checked symbolically); R5 the dedent ranges of all blocks are sorted by start before merge_ranges (blocks nest, so they do not arrive in order).  "
+        "Not decided: that every line is shifted by the same amount; correctness at nesting depth "
         ">= 2 beyond R4; start-of-file treated as a line start for an indented first-line tag.")
     res.trusted += ["driver fact extraction and the abstract interpreter"]
     deletion.block_ranges(ctx, res, "C12.R1")
@@ -25,6 +26,7 @@ def run(ctx, res):
     amount_from_first_line(ctx, res, "C12.R2b")
     deletion.byte0_examined(ctx, res, "C12.R3")
     pair_indices(ctx, res, "C12.R4")
+    block_ranges_sorted(ctx, res, "C12.R5")
 
 
 def saturating_amount(ctx, res, rule):
@@ -111,6 +113,53 @@ def amount_from_first_line(ctx, res, rule):
         res.holds(rule, fn, "amount-from-first-line", "indent(first inner line) saturating_sub indent(tag)")
     else:
         res.add(Finding(rule, fn, "amount-from-first-line", "; ".join(why), loc=T.loc(amount)))
+
+
+def block_ranges_sorted(ctx, res, rule):
+    """Unwrap-blocks nest, so the dedent ranges of different blocks do not arrive in ascending order; merge_ranges
+    inserts by walking backwards once and needs its second argument ascending: the list must be sorted (or come from a
+    sorted merge) before it is handed over.  Necessary for `this holds at every nesting depth`."""
+    P = ctx.lib
+    b = P.fn("code::formatter::format")
+    fn = fshort(b)
+    calls = [n for n in T.nodes(b["tree"], "call") if T.short_path(T.callee(n) or "").endswith("merge_ranges")]
+    if len(calls) != 1 or len(calls[0]["args"]) != 2:
+        res.cannot(rule, fn, "merge-call", "call of merge_ranges(&mut ranges, block_ranges) not found", T.loc(b["tree"]))
+        return
+    lid = T.local_of(T.peel_ref(calls[0]["args"][1]))
+    if lid is None:
+        res.cannot(rule, fn, "merge-call", "block ranges are not a local list", T.loc(calls[0]))
+        return
+    # is the list filled for more than one block (inside the loop over removed positions)?
+    blk = T.peel(b["tree"])
+    while blk.get("k") == "blockexpr":
+        blk = blk["block"]
+    seq = [T.peel(st["e"]) if st["k"] == "expr" else st for st in blk["stmts"]]
+    idx_call = next((i for i, st_ in enumerate(seq) if any(x is calls[0] for x in T.nodes(st_))), None)
+    last_fill = None
+    sorted_after = None
+    for i, st_ in enumerate(seq[: idx_call if idx_call is not None else len(seq)]):
+        for x in T.nodes(st_, "mcall"):
+            if T.local_of(T.peel_ref(x["recv"])) != lid:
+                continue
+            if x["name"] in ("extend", "push", "append", "insert"):
+                last_fill = i
+            if x["name"] in ("sort", "sort_unstable", "sort_by_key", "sort_unstable_by_key", "sort_by", "sort_unstable_by"):
+                key_ok = x["name"] in ("sort", "sort_unstable")
+                if x["args"]:
+                    r = T.render(x["args"][0]).replace(" ", "")
+                    key_ok = bool(__import__("re").match(r"^\|(\w+)\|\1\.start$", r)) or bool(__import__("re").match(r"^\|(\w+),(\w+)\|\1\.start\.cmp\(&\2\.start\)$", r))
+                if key_ok:
+                    sorted_after = i
+    if last_fill is None:
+        res.cannot(rule, fn, "block-range-fill", "the block range list is never filled", T.loc(b["tree"]))
+        return
+    if sorted_after is not None and sorted_after >= last_fill:
+        res.holds(rule, fn, "block-ranges-sorted", "sorted by start after the last fill, before merge_ranges")
+    else:
+        res.add(Finding(rule, fn, "block-ranges-sorted", "the dedent ranges of all unwrap-blocks are concatenated in marker order and handed to merge_ranges unsorted: for nested "
+                        "unwrap-blocks the inner block's ranges follow the outer block's, merge_ranges (one backward walk) misplaces them and the overlap merge drops them - the "
+                        "inner body is not dedented", loc=T.loc(calls[0])))
 
 
 def pair_indices(ctx, res, rule):
